@@ -9,7 +9,7 @@ import json
 
 import numpy as np
 
-from .. import cases, corpus, gen, sim, expect, spec_order
+from .. import cases, corpus, gen, sim, expect, w4, spec_order
 from ..harness import CaseResult
 from ..probe import read, snap
 
@@ -40,8 +40,8 @@ REQUIRED_REACH = ["signed_order", "bogus_order", "labels_codes", "payload_order"
                   "slice_rows", "slice_cols", "collator:ExplicitOrderCollator",
                   "collator:PayloadOrderCollator", "class:derived_mr"]
 BATCH = 8
-RULE = RULE + corpus.RULE_SUFFIX
-REQUIRED_REACH = list(REQUIRED_REACH) + ["class:corpus"]
+RULE = RULE + corpus.RULE_SUFFIX + w4.RULE_SUFFIX
+REQUIRED_REACH = list(REQUIRED_REACH) + ["class:corpus", "class:w4"]
 TECHNIQUE = TECHNIQUE + corpus.TECHNIQUE_SUFFIX
 UNIT_TIMEOUT_S = 120
 CHUNK = 400
@@ -111,12 +111,14 @@ def units(tier, seed):
                             "sample": None, "seed": seed})
         for i in range(6000):
             out.append({"kind": "rand", "i": i, "seed": seed})
-    return out + corpus.units(tier, seed)  # W3: fixture corpus, intrinsic order relations
+    return out + corpus.units(tier, seed) + w4.units(tier, seed)  # W3: fixture corpus, intrinsic order relations
 
 
 def make_case(unit):
     if "corpus" in unit:
         return corpus.make_case(ID, unit)
+    if "w4" in unit:
+        return w4.make_case(ID, unit)
     return dict(unit)
 
 
@@ -225,6 +227,8 @@ def _check_strand_cfg(res, cfg):
 def check_case(case):
     if "fixture" in case:
         return corpus.check_case(ID, case)
+    if case.get("w4"):
+        return w4.check_case(ID, case)
     res = CaseResult()
     if case["kind"] == "enum":
         it = itertools.islice(configs_for(case["n"]), case["start"], case["stop"])
